@@ -1199,6 +1199,33 @@ class Interp:
                 last = s["e"]
         return last is not None and (last["k"] == "Ret" or last.get("ty") == "!")
 
+    MUTATOR_NAMES = ("push", "push_str", "extend", "extend_from_slice", "append", "insert", "remove", "pop", "clear", "next", "next_back", "nth", "fill_bytes", "try_fill_bytes", "fill", "truncate", "resize", "drain", "retain", "sort", "sort_by", "sort_unstable", "dedup", "reverse", "swap", "take", "replace", "set", "write", "write_all", "rand", "sample", "gen", "commit", "constrain", "allocate", "allocate_multiplier", "multiply", "mul_assign", "add_assign", "sub_assign", "neg_in_place", "square_in_place", "double_in_place", "inverse_in_place", "get_or_insert_with", "get_or_init", "borrow_mut", "lock", "store", "fetch_add")
+
+    def check_assert_pure(self, e):
+        """The argument of `assert!` / `debug_assert!` is not evaluated by this interpreter (an assertion is a panic site, not
+        an effect), and `debug_assert!` arguments do not run in release builds at all.  An argument that *does* something --
+        absorbs into a transcript, draws randomness, serialises into a buffer, advances an iterator, assigns -- makes debug and
+        release builds behave differently (round j: seven seeded changes hid real work inside `debug_assert!`).  Refused."""
+        bad = None
+        for n_ in FX.walk(e):
+            k_ = n_.get("k")
+            if k_ in ("Assign", "AssignOp"):
+                bad = "an assignment"
+            elif k_ == "AddrOf" and n_.get("mut"):
+                bad = "a `&mut` borrow"
+            elif k_ in ("MethodCall", "Call"):
+                ci = FX.callee_info(n_) or {}
+                p_ = ci.get("resolved") or ci.get("path") or ""
+                last = p_.split("::")[-1]
+                if any(x in p_ for x in ("merlin::", "TranscriptProtocol", "RngCore", "UniformRand", "CanonicalSerialize", "CanonicalDeserialize")) or last in self.MUTATOR_NAMES or last.startswith(("append_", "serialize", "deserialize", "challenge_", "validate_and_", "rekey", "finalize")):
+                    bad = f"a call of `{p_}`"
+                elif p_ in self.F.fns:
+                    ps = self.F.fns[p_].get("params") or []
+                    if ps and str(ps[0].get("ty", "")).startswith("&mut"):
+                        bad = f"a call of `{p_}` (takes `&mut`)"
+            if bad:
+                raise Unanalysable(f"the argument of {e.get('expn', 'assert!').split(':')[-1]}! contains {bad}: an assertion that does work behaves differently in debug and release builds (and its argument is not interpreted here)", FX.short(e.get("sp")))
+
     def block_jumps(self, b):
         """the diverging block ends in `continue` / `break` rather than `return` / panic: a loop jump under this
         condition, which must not be mistaken for a function exit"""
@@ -1211,6 +1238,7 @@ class Interp:
 
     def ev_If(self, e, env):
         if e.get("expn", "").startswith(("Bang:assert", "Bang:debug_assert")):
+            self.check_assert_pure(e)
             self.trace.add("assert", e.get("expn"), FX.short(e.get("sp")), self.fn_stack[-1] if self.fn_stack else "")
             return UNIT
         if e["c"]["k"] == "LetExpr":
@@ -1460,6 +1488,7 @@ class Interp:
     def ev_Match(self, e, env):
         src = e["src"]
         if e.get("expn", "").startswith(("Bang:assert", "Bang:debug_assert")):
+            self.check_assert_pure(e)
             self.trace.add("assert", e.get("expn"), FX.short(e.get("sp")), self.fn_stack[-1] if self.fn_stack else "")
             return UNIT
         if src.startswith("ForLoopDesugar"):
